@@ -279,6 +279,16 @@ def f25(mod, plan, viol):
     return res['status'] != 'violation'
 
 
+@classifier('f29_real_float_drift')
+def f29(mod, plan, viol):
+    """F29: a character-form REAL lives as a Python float inside the library and Real.prettyIn turns a float
+    into (mantissa, 10, exponent) by multiplying by ten until it is whole, which accumulates rounding errors
+    for small and large exponents: decode(encode(v)) differs from v beyond the 12th significant digit.  The
+    check marks a re-encoding mismatch in which nothing but such digits differ."""
+    return (viol['sig'][0] == 'reencoding-decodes-to-other-value' and
+            'only REAL digits beyond the 12th differ' in str(viol.get('detail', {}).get('why', '')))
+
+
 @classifier('f26_real_not_encodable')
 def f26(mod, plan, viol):
     from simkit import universe as U
